@@ -133,7 +133,11 @@ def _snapshot_bytes(sim, fmt, wd, name):
         return f.read()
 
 def _new_sim(scn, data, ext, tstates, k0=0):
-    snap = snapshot_mod.Snapshot.get(data, ext)
+    try:
+        snap = snapshot_mod.Snapshot.get(data, ext)
+    except Exception as e:
+        # the bytes were produced by SkoolKit's own snapshot writer (the durable store of this property)
+        raise ToolError('snapshot (%s) written by SkoolKit cannot be read back by Snapshot.get: %s: %s' % (ext, type(e).__name__, e))
     cls = classes[(scn['cmio'], scn['rec_python'])]
     sim = simutils.from_snapshot(cls, snap, config={'int_active': 0})
     tr = _make_tracer(sim, snap, scn['reads'])
@@ -349,9 +353,8 @@ def _run(scn, res, wd):
     scn = json.loads(json.dumps(scn))
     try:
         data, final, pairs, st = record(scn, wd)
-    except Exception as e:
-        # the recorder runs real cores; an exception there is a harness-level problem unless it comes from skoolkit
-        raise
+    except ToolError as e:
+        return fail(res, 'C20/tool-error', 'recorder: ' + str(e))
     for k, v in st.items():
         bump(res, 'probe:' + k if not k in ('fetches', 'port_reads') else k, v)
     nframes = sum(len(f) for _, f in pairs)
